@@ -64,6 +64,18 @@ fn check_parse(ctx: &mut Ctx, index: u64, kind: &str, which: u32, bytes: &[u8], 
                 if !ok {
                     ctx.finding(index, "known-fields-disturbed-by-unknown", kind, "from_bytes", json!({"kind": kind, "which": which, "bytes": vref::hex(bytes)}));
                 }
+                // "ignored" means the known flags of the same byte still read as sent
+                let sent = bytes[2];
+                let ph = m.primary_header();
+                let got = ph.flags();
+                let known = [(1u8, zbus::message::Flags::NoReplyExpected), (2, zbus::message::Flags::NoAutoStart), (4, zbus::message::Flags::AllowInteractiveAuth)];
+                ctx.count("known_flag_readbacks", 1);
+                for (bit, f) in known {
+                    if got.contains(f) != (sent & bit != 0) {
+                        ctx.finding(index, "known-flags-disturbed-by-unknown", kind, "from_bytes", json!({"kind": kind, "which": which, "flags_byte_sent": sent, "flags_read": format!("{got:?}"), "bytes": vref::hex(bytes)}));
+                        break;
+                    }
+                }
             }
         }
     }
@@ -159,6 +171,20 @@ pub fn run(ctx: &mut Ctx) {
                 check_stream(ctx, k, "flag-bit", bit, bytes.clone(), &mut rng);
             });
         }
+    }
+    // every flags byte with at least one unknown bit (all 248): parsed, known fields and known flags read back
+    for flags in 8u32..=255 {
+        k += 1;
+        if !ctx.mine(k) || !ctx.want(k) {
+            continue;
+        }
+        let mut m = base(8);
+        m.flags = flags as u8;
+        m.endian = if flags % 2 == 0 { Endian::Le } else { Endian::Be };
+        let e = m.endian;
+        let bytes = m.marshal();
+        let note = format!("flags-byte {flags:#04x}");
+        ctx.guarded(k, &note, || json!({"flags": flags}), |ctx| check_parse(ctx, k, "flags-byte", flags, &bytes, e, true));
     }
     // every unknown message type
     for t in 5u32..=255 {
